@@ -22,11 +22,11 @@ CHECKS = {
          "DESIGN.md §3 C03"),
  "C04": ("fault_enumeration",
          "systematic fault enumeration over (fork shape, offending position, kind of invalidity, chain content) with a full before/after state snapshot oracle and a deterministic step-count bound (hook H1)",
-         "Every combination of main-chain length (also past the window wrap with genesis period 4 and 5), fork depth, position of the invalid block in the candidate chain (first/middle/last) and 20 kinds of invalidity (9 header lies, 4 payout lies, 7 invalid-transaction edits) is built with real signed blocks and delivered; any delivery that is not accepted must leave tip, utxoset, chain index, stored blocks and wallet bit-identical, the wind/unwind loop must finish within 2(|old|+|new|)+2 iterations (counted by the cfg-guarded hook), and the tip must never move onto a chain containing the invalid block.",
+         "Every combination of main-chain length (also past the window wrap with genesis period 4 and 5; also the early-block shape: a block delivered before its parent, then an invalid block on top of it), fork depth, position of the invalid block in the candidate chain (first/middle/last) and 20 kinds of invalidity (9 header lies, 4 payout lies, 7 invalid-transaction edits) is built with real signed blocks and delivered; any delivery that is not accepted must leave tip, utxoset, chain index, stored blocks and wallet bit-identical, the wind/unwind loop must finish within 2(|old|+|new|)+2 iterations (counted by the cfg-guarded hook), and the tip must never move onto a chain containing the invalid block.",
          "Children of the invalid block are produced by a harness-side builder that treats the invalid block as accepted; the step counter is hook H1 (cfg saito_verif), which also turns a livelock into a verdict instead of a hang.",
          "DESIGN.md §3 C04"),
  "C01": ("exploration",
-         "property-based adversarial testing: generated chain states x an edit catalogue of 26 invalid-transaction constructions (incl. privileged types without inputs, ATR-typed thefts, a BlockStake-typed spend of an expired output, two valid spends of one output in one received block), judged by an independent reference ledger, offered to both pool entry points and (inside attacker-built blocks) to block validation",
+         "property-based adversarial testing: generated chain states x an edit catalogue of 27 invalid-transaction constructions (incl. privileged types without inputs, ATR-typed thefts, BlockStake-typed spends of an expired and of a spent output, two valid spends of one output in one received block), judged by an independent reference ledger, offered to both pool entry points and (inside attacker-built blocks) to block validation",
          "Honest forked histories (fees, golden tickets, rebroadcasts; gp 4..100) put a victim node into one of the state classes fresh / after reorg / after window wrap; every catalogue edit is built from the victim's real ledger, confirmed invalid by the independent reference ledger, and must be refused by Mempool::add_transaction_if_validates, by VerificationThread::verify_tx and by add_block of an attacker-built block with 0..3 honest fillers; an honest spend must be admitted. A validator that stops gating on any one rule (signature, ownership, existence, window, double spend, overspend, type privileges) accepts at least one catalogue entry.",
          "Staking (social_stake>0) state class is not generated. Adversary cannot forge signatures. The attacker's block is produced with the repository's Block::create, so its header is consistent with the invalid content.",
          "DESIGN.md §3 C01"),
@@ -41,7 +41,7 @@ CHECKS = {
          "The 'must adopt' direction is asserted only for chains that also satisfy the implementation's extra start-up rule (one ticket in the first five blocks); other cases are counted as unasserted. Deliveries of a parentless block at or below the tip's height (initial_loading_completed=false) or on a branch with a purged fork point are known finding F10b; a block that merely arrives early (above the tip) must be neutral and the history is judged on.",
          "DESIGN.md §3 C05"),
  "C06": ("exploration",
-         "property-based mutation of valid blocks (21 edit kinds on transaction list incl. truncation down to the header-only form, single transaction fields incl. txs_replacements, input coordinates and routing path, signed/unsigned header fields, merkle root, signature, creator) across the wire format, offered to replica nodes in three states (whole chain, joined mid-chain, empty node + genesis block); oracle from the statement",
+         "property-based mutation of valid blocks (21 edit kinds on transaction list incl. truncation down to the header-only form, single transaction fields incl. txs_replacements, input coordinates and routing path, signed/unsigned header fields, merkle root, signature, creator) across the wire format, offered to replica nodes in four states (whole chain, joined mid-chain, empty node + genesis block, stored as side-branch block and wound when an honest child arrives); oracle from the statement",
          "For valid blocks at the tip of generated histories every edit of the transaction list or of a signed header field that is not re-signed by the stated creator must be refused; a block accepted under the original hash must carry the original ordered transaction list; a block re-signed by another key must have another hash; the unedited round-tripped block must be accepted.",
          "Edits of header fields outside the signature are classified, not asserted (the statement does not cover them). Open finding F40 (input coordinates and routing path are outside the transaction hash) is keyed by cause: accepted, same hash, same transaction hashes, different transactions. Edits that decode to a field-for-field identical block (zeroed merkle root recomputed from unchanged transactions) are discarded as no-ops.",
          "DESIGN.md §3 C06"),
@@ -62,7 +62,7 @@ CHECKS = {
          "DESIGN.md §3 C13"),
  "C14": ("exploration",
          "stateful model-based testing: generated operation sequences (vec of ops + interpreter, shrinking as one value) over pool, producer, peer blocks and reorganisations, invariants after every step and a terminal spendability probe, judged by the independent reference ledger",
-         "Sequences of up to 30 pool operations (fresh/conflicting/duplicate/invalid/shaped submissions, local bundling, peer blocks confirming pooled transactions, peer blocks spending one input of a multi-input pooled transaction, rejected blocks, reorganising side chains) are interpreted against one node; after each step the pool must be conflict-free, every pooled transaction valid on the current ledger, the cached routing work exact, bundling all-or-nothing; at the end every spendable output not referenced by the pool must be spendable through the pool.",
+         "Sequences of up to 30 pool operations (fresh/conflicting/duplicate/invalid/shaped submissions, staking transactions of other keys, local bundling, peer blocks confirming pooled transactions, peer blocks spending one input of a multi-input pooled transaction, rejected blocks, reorganising side chains) are interpreted against one node; after each step the pool must be conflict-free, every pooled transaction valid on the current ledger, the cached routing work exact, bundling all-or-nothing; at the end every spendable output not referenced by the pool must be spendable through the pool.",
          "Staking is off (the wallet's stake selection is not in scope here). Pool admission of catalogue edits is C01's subject; here only consistency is asserted.",
          "DESIGN.md §3 C14"),
  "C19": ("exploration",
@@ -92,12 +92,12 @@ CHECKS = {
          "DESIGN.md §3 C15"),
  "C11": ("exploration",
          "property-based robustness testing of a whole node (real routing, verification, consensus, mining threads) under generated sequences of hostile and honest events, with a panic/step-bound oracle per handler invocation and a differential oracle against a twin node that only sees the honest sub-sequence",
-         "Sequences of 3..40 events mix complete validly signed handshakes on new connections (under the hostile peer's already connected key or a fresh key), decodable messages of every tag from an authenticated and an unauthenticated hostile peer (generated by the C09 value generators), key-list floods, bogus block announcements answered with garbage/truncated/empty/mismatching/edited blocks, catalogue transactions, shaped transactions (correctly signed, any transaction type x 0..5 inputs x 0..5 outputs x any slip types, as messages and inside fetched blocks), raw garbage and connection events with honest transactions and blocks, timer ticks and channel pumping. Every handler invocation must return; block processing must stay under the step bound; after every event the tip, and at the end utxoset, honest pool content and honest peer status, must equal those of the honest-only twin.",
+         "Sequences of 3..40 events mix complete validly signed handshakes on new connections (under the hostile peer's already connected key or a fresh key), decodable messages of every tag from an authenticated and an unauthenticated hostile peer (generated by the C09 value generators), key-list floods, bogus block announcements answered with garbage/truncated/empty/mismatching/edited blocks, catalogue transactions, shaped transactions (correctly signed, any transaction type x 0..5 inputs x 0..5 outputs x any slip types, as messages and inside fetched blocks), hostile two-block forks (valid sibling of the tip + invalid child), raw garbage and connection events with honest transactions and blocks, timer ticks and channel pumping. Every handler invocation must return; block processing must stay under the step bound; after every event the tip, and at the end utxoset, honest pool content and honest peer status, must equal those of the honest-only twin.",
          "A handler that never returns outside the wind/unwind loop can only be caught by the harness watchdog (reported as inconclusive, exit 2); the per-event tip comparison catches the known way into such a loop (corrupted chain index) before it is entered. Rate limiters other than the key-list one are not exhausted by these sequence lengths.",
          "DESIGN.md §3 C11"),
  "C12": ("fault_enumeration",
          "crash-point enumeration over the journal of storage operations recorded by an in-memory InterfaceIO (prefix x {complete, absent, torn at 5 byte-class boundaries and at/inside the first three transaction boundaries}), each followed by a real restart through ConsensusThread::on_init and a differential/replay oracle; histories generated with proptest",
-         "For generated histories with pruning, rebroadcast, reorganisations, stored-but-never-validated invalid side blocks and (in half of them) one block delivered before its ancestors the clean restart must reproduce tip and in-window spendable set; for every enumerated crash point the restarted node must come up without panicking on a tip whose file was completely on disk, with index/flags describing the tip's ancestors, the in-window spendable set equal to the independent replay of that chain, supply conserved when the whole window is held, and must accept a valid next block; after a second block it is shut down cleanly and restarted from its own files, and must not come back on an ancestor of that tip.",
+         "For generated histories with pruning, rebroadcast, reorganisations, stored-but-never-validated invalid side blocks and (in half of them) one block delivered before its ancestors the clean restart must reproduce tip and in-window spendable set; for every enumerated crash point the restarted node must come up without panicking on a tip whose file was completely on disk, with index/flags describing the tip's ancestors, the in-window spendable set equal to the independent replay of that chain, supply conserved when the whole window is held, and must accept a valid next block; after a second block it is shut down cleanly and restarted from its own files, and must not come back on an ancestor of that tip; the clean restart's own journal (it stores every loaded block again) is enumerated with torn writes followed by a second restart; every ancestor of a restarted tip above the purge horizon must be held by the node.",
          "The tearing model (prefix of the new content under the final name; removal atomic) is an assumption taken from RustIOHandler::write_value; the native handler is not executed. Quick tier strides over journal prefixes outside reorganisation/pruning steps; thorough tier takes every prefix. Histories avoid side chains whose fork point has been purged (known finding F10). Open findings F37 (unvalidated stored side block adopted at restart once the genesis block is purged) and F41 (a competing valid branch wins by file order) are keyed by cause.",
          "DESIGN.md §3 C12"),
  "C20": ("exploration",
